@@ -399,6 +399,35 @@ def tables(ctx, jobs, timeout=2400, attacks=(), guard=True, model_only=()):
     return out
 
 
+def empty_tile_sequences(ctx, world):
+    """The same answer several times: empty tiles (a tile layer whose source covers one square degree) through every tile
+    service, three times each - every other call with wsgi.file_wrapper and the iterable closed afterwards, as servers do -
+    and two answers handed out before the first body is read.  Every one of them is a complete response of its own:
+    200, image/png of 256 x 256 that decodes, Content-length = the bytes sent, the application does not raise."""
+    paths = ['/tms/1.0.0/tcov/EPSG900913/2/0/0.png', '/tiles/tcov/EPSG900913/2/0/0.png', '/kml/tcov/EPSG900913/2/0/0.png',
+             '/wmts/tcov/GLOBAL_MERCATOR/2/0/0.png', '/tms/1.0.0/tcov/EPSG900913/2/3/3.png']
+    raws = []
+    for path in paths:
+        for _ in range(3):
+            raws.append(('one after the other', world.call(path, [], {})))
+    for a, b in ((paths[0], paths[0]), (paths[1], paths[3])):
+        raws += [('two answers before the first body is read', r) for r in world.call_overlapped([a, b])]
+    n_empty = 0
+    for how, raw in raws:
+        o = W.observe(world, raw, {}, {})
+        bad = list(o['problems'])
+        if o['raised'] == 'no' and not bad and (o['status'], o['kind'], o['w'], o['h']) != (200, 'image', 256, 256):
+            bad.append('answer is %s %s %sx%s' % (o['status'], o['kind'], o['w'], o['h']))
+        ctx.count(('empty-tile', how, raw['path'], len(raws)))
+        n_empty += 1
+        if bad:
+            ctx.violation({'invariant': 'complete-response', 'what': 'repeated-empty-tile', 'how': how},
+                          'empty tile %s, %s: %s' % (raw['path'], how, '; '.join(bad)[:300]),
+                          {'op': 'empty-tile', 'p': {'path': raw['path'], 'how': how}})
+            break
+    return n_empty
+
+
 def run(ctx):
     thorough = ctx.tier == 'thorough'
     tlc.sany(SPEC)
@@ -525,6 +554,8 @@ def run(ctx):
                 c['size'], c['echo'], c['bad']), {'op': e['op'], 'p': e['p'], 'observed': c, 'events': [e]})
         ctx.log('validated %d recorded requests with TLC (%d rejected, %d violate the property); %d requests in total' % (
             len(events), len(rejected), len(obsbad), chk.nreq))
+        n = empty_tile_sequences(ctx, chk.world)
+        ctx.log('%d answers with empty tiles (repeated, with and without wsgi.file_wrapper, overlapped)' % n)
     finally:
         chk.close()
     ctx.assumptions += [
@@ -537,6 +568,8 @@ def run(ctx):
         'the spec is permissive (several response classes) where the outcome depends on data below the class level; the '
         'checks on the observed response itself are strict',
         'tile caches are filled before the runs (cold/warm tile state is C20); the legend cache state is a request class',
+        'every other request comes from a server that offers wsgi.file_wrapper and closes the iterable after sending; '
+        'answers that are handed out before an earlier body was read are exercised for empty tiles only',
     ]
     return ctx.finish('exploration',
                       'TLC: all request class vectors with at most MaxDev parameters off the baseline for the stated operations '
